@@ -183,6 +183,44 @@ func execParCmp(w *World, st *Step) {
 		}
 		if k == 0 {
 			ref32, ref64 = a32, a64
+			// "the same result" is the fold of the inputs: the canonical execution is held to it,
+			// every other schedule to the canonical execution
+			var want32 []uint32
+			var want64 []uint64
+			if which == 3 {
+				m := model.NewSet64()
+				for _, sl := range st.S {
+					m = model.Or64(m, w.X.B64[sl].M)
+				}
+				want64 = m.Slice()
+			} else {
+				var m *model.Set32
+				for _, sl := range st.S {
+					switch {
+					case m == nil:
+						m = w.B[sl].M.Clone()
+					case which == 1:
+						m = model.And32(m, w.B[sl].M)
+					default:
+						m = model.Or32(m, w.B[sl].M)
+					}
+				}
+				if m == nil {
+					m = model.NewSet32()
+				}
+				want32 = m.Slice()
+			}
+			ok := len(a32) == len(want32) && len(a64) == len(want64)
+			for i := 0; ok && i < len(a32); i++ {
+				ok = a32[i] == want32[i]
+			}
+			for i := 0; ok && i < len(a64); i++ {
+				ok = a64[i] == want64[i]
+			}
+			if !ok {
+				w.fail("C12+C11", "not-the-fold", parNames[which]+": result is not the fold of its inputs", fmt.Sprintf("%s%s returned %d elements, the fold of the %d inputs has %d", parNames[which], what, len(a32)+len(a64), len(st.S), len(want32)+len(want64)))
+				return
+			}
 			continue
 		}
 		same := len(a32) == len(ref32) && len(a64) == len(ref64)
